@@ -126,7 +126,9 @@ def matrix_cells(mock):
         if mock:
             fmts = ["vfmock", None]
         for fmt in fmts:
-            for state in ("absent", "file", "empty_folder", "nonempty_folder"):
+            for state in ("absent", "file", "empty_folder", "nonempty_folder", "file_noext", "nonempty_folder_dotted"):
+                if state == "file_noext" and not fmt:
+                    continue  # without an extension the format has to be named
                 for allow in (False, True):
                     cells.append((name, fmt, state, allow))
     return cells
@@ -177,14 +179,16 @@ def run_cell(cell, objs, funcs, root, rec, mock=False):
     root.mkdir(parents=True)
     (root / "sibling.txt").write_bytes(b"PRECIOUS SIBLING")
     ext = fmt if fmt and fmt != "nosuchformat" else ("vfmock" if mock else ("nc" if name == "dataset" else "yml"))
-    if state in ("absent", "file"):
-        target = root / f"target.{ext}"
-        if state == "file":
+    if state in ("absent", "file", "file_noext"):
+        # what exists is decided by the file system, not by the shape of the name: a file without extension is a file
+        target = root / (f"target.{ext}" if state != "file_noext" else "target")
+        if state != "absent":
             target.write_bytes(b"PRECIOUS")
     else:
-        target = root / "folder"
+        # ... and a folder whose name contains a dot is a folder
+        target = root / ("folder" if state != "nonempty_folder_dotted" else "fit_v1.2")
         target.mkdir()
-        if state == "nonempty_folder":
+        if state in ("nonempty_folder", "nonempty_folder_dotted"):
             (target / "keep.txt").write_bytes(b"PRECIOUS")
             (target / "result.yml").write_bytes(b"PRECIOUS")
     before = snap(root)
@@ -219,7 +223,7 @@ def run_cell(cell, objs, funcs, root, rec, mock=False):
             continue  # mkdir(exist_ok=True) of an existing directory: not a write
         wrote.append((e[0], rp, e[2] if len(e) > 2 else ""))
     ctx = {"function": f"save_{name}", "format": fmt, "target_state": state, "allow_overwrite": allow, "mock_plugin": mock, "outcome": out}
-    refusal = state in ("file", "nonempty_folder") and not allow
+    refusal = state in ("file", "nonempty_folder", "file_noext", "nonempty_folder_dotted") and not allow
     tag = f"save_{name}:{fmt if fmt in (None, 'nosuchformat', 'vfmock') else 'registered'}:{state}"
     if refusal:
         rec.count("refusal_cases_judged")
